@@ -101,7 +101,15 @@ async fn accept_loop(inner: Arc<Inner>, listener: std::net::TcpListener, mut sto
 }
 
 async fn serve_conn(inner: Arc<Inner>, sock: Io, conn_id: u64) {
-    let Ok(mut conn) = h2::server::Builder::new().handshake::<_, Bytes>(sock).await else {
+    // windows larger than h2's 64 KiB default: a 2 MiB body then needs a handful of WINDOW_UPDATE round
+    // trips instead of ~30 (which, between two single-threaded runtimes on an oversubscribed machine, made
+    // requests miss emit's scaled timeout), while flow control is still exercised
+    let Ok(mut conn) = h2::server::Builder::new()
+        .initial_window_size(512 * 1024)
+        .initial_connection_window_size(1024 * 1024)
+        .handshake::<_, Bytes>(sock)
+        .await
+    else {
         return;
     };
     let (cmd_tx, mut cmd_rx) = mpsc::unbounded_channel::<ConnCmd>();
